@@ -73,6 +73,9 @@ type truth struct {
 	Exact     bool `json:"exact"`       // prefixOK and then EOF without further bytes or error
 	Trailing  bool `json:"trailing"`    // prefixOK and bytes beyond Size are delivered
 	ErrAtSize bool `json:"err_at_size"` // prefixOK, no byte beyond Size, but an error instead of EOF
+	// ErrWithLast ⊆ ErrAtSize: the error is reported by the very read that delivers the
+	// last of the Size bytes, i.e. the reader fails while the content is being read
+	ErrWithLast bool `json:"err_with_last_bytes"`
 }
 
 func (k *kase) truth() truth {
@@ -91,6 +94,7 @@ func (k *kase) truth() truth {
 	t.Exact = k.Rho.ErrAt < 0 && int64(len(k.Stream)) == k.Size
 	t.Trailing = int64(limit) > k.Size
 	t.ErrAtSize = k.Rho.ErrAt >= 0 && int64(limit) == k.Size
+	t.ErrWithLast = t.ErrAtSize && k.Rho.ErrWithData && k.Size > 0
 	return t
 }
 
@@ -413,6 +417,7 @@ func genCase(rng *rand.Rand, i int) *kase {
 					k.Rho.ErrAt = int(lo + rng.Int64N(L-lo+1))
 				}
 				k.Rho.ErrWithData = rng.IntN(2) == 0
+				k.Rho.ErrOnce = rng.IntN(2) == 0
 			}
 		}
 	}
@@ -420,6 +425,8 @@ func genCase(rng *rand.Rand, i int) *kase {
 	switch {
 	case k.Rho.ErrAt >= 0 && int64(k.Rho.ErrAt) < k.Size:
 		k.RClass = "err-before-size"
+	case k.Rho.ErrAt >= 0 && int64(k.Rho.ErrAt) == k.Size && k.Rho.ErrWithData && k.Size > 0:
+		k.RClass = "err-with-last-bytes"
 	case k.Rho.ErrAt >= 0 && int64(k.Rho.ErrAt) == k.Size:
 		k.RClass = "err-at-size"
 	case k.Rho.ErrAt >= 0:
